@@ -190,6 +190,25 @@ def fit_root_fitter(fcn):
     return ret
 
 
+def _trainable_bounds(vm, bounds_dict):
+    """
+    Bounds keyed by the names listed in ``vm.trainable_vars``: tied names share
+    one variable, a bound declared on any of them applies to the listed one.
+    """
+    ret = {}
+    for name, (lower, upper) in bounds_dict.items():
+        for i in vm.trainable_vars:
+            if vm.variables[i] is vm.variables.get(name, None):
+                name = i
+        lower0, upper0 = ret.get(name, (None, None))
+        if lower is None or (lower0 is not None and lower0 > lower):
+            lower = lower0
+        if upper is None or (upper0 is not None and upper0 < upper):
+            upper = upper0
+        ret[name] = (lower, upper)
+    return ret
+
+
 def fit_scipy(
     fcn,
     method="BFGS",
@@ -212,6 +231,7 @@ def fit_scipy(
     :return:
     """
     gtol *= grad_scale
+    bounds_dict = _trainable_bounds(fcn.vm, bounds_dict)
     args_name = fcn.vm.trainable_vars
     x0 = []
     bnds = []
